@@ -32,7 +32,7 @@ ANCHORS = [
     "stereomolgraph.graphs.scrg:StereoCondensedReactionGraph.relabel_atoms",
 ]
 REQUIRED_ANCHORS = ANCHORS
-REQUIRED = ["eq_observed", "with_changes", "with_placeholder", "with_unspecified", "empty_graph", "isolated_atoms", "harness_crosscheck", "disconnected", "large_graphs", "scale_cases"]
+REQUIRED = ["eq_observed", "with_changes", "with_placeholder", "with_unspecified", "empty_graph", "isolated_atoms", "harness_crosscheck", "disconnected", "large_graphs", "scale_cases", "high_coordination_cases"]
 VARIANTS = ("rebuild", "relabel_copy", "relabel_inplace", "rewrite", "all", "derived")
 
 
@@ -70,6 +70,11 @@ def gen_cases(ctx):
         m = gen.random_bijection(rng, pg)
         yield {"cls": cls, "pg": pg_to_json(pg), "variant": VARIANTS[j % len(VARIANTS)], "bseed": rng.randrange(1 << 30), "idmap": [[a, b] for a, b in m.items()]}
     # very long chains (300-2600 backbone atoms): deep recursion / n*n index arithmetic inside == and hash
+    # centres with 7-9 ligands and no descriptor
+    for k, deg, cls, seed in gen.high_coordination_specs(ctx, rng):
+        pg = gen.high_coordination_pg(random.Random(seed), cls, deg)
+        m = gen.random_bijection(rng, pg)
+        yield {"cls": cls, "pg": pg_to_json(pg), "variant": ("rebuild", "relabel_copy", "derived")[k % 3], "bseed": seed // 3, "idmap": [[a, b] for a, b in m.items()], "high_coordination": deg}
     for k, nsz, cls, seed in gen.scale_specs(ctx, rng):
         yield {"cls": cls, "scale": nsz, "gseed": seed, "variant": ("rebuild", "relabel_copy", "derived", "relabel_inplace", "derived")[k % 5], "bseed": seed // 3}
 
@@ -102,6 +107,8 @@ def check_case(ctx, case):
     pg = case_pg(case)
     if "scale" in case:
         ctx.count("scale_cases")
+    if "high_coordination" in case:
+        ctx.count("high_coordination_cases")
     cls, variant = case["cls"], case["variant"]
     m = {a: b for a, b in case["idmap"]} if "idmap" in case else gen.random_bijection(random.Random(case["bseed"] + 1), pg)
     brng = random.Random(case["bseed"])
